@@ -68,6 +68,9 @@ def check(prog, run, cases=None, floors=True):
             if b.cells is None:
                 return ("dynamic", b, d0)
             img = Buf(cells=list(b.cells))
+            # the marshaller must leave the dictionary it was given intact, and building it again gives the same bytes
+            again = I.call(m, [d], {}, None, _F())
+            I.event("rebuild", first=img, again=again, intact=same_value(d, d0), diff=first_difference(d0, d, ""))
             d1 = I.call(u, [Buf(cells=list(b.cells))], dict(case["ukw"]), None, _F())
             # read-modify-write direction
             bc = canonical(img)
@@ -98,6 +101,17 @@ def check(prog, run, cases=None, floors=True):
             if v[0] == "dynamic":
                 raise AnalysisError("shape-not-static", c)
             _, d0, img, d1, bc, d2, b2 = v
+            for ev in p.events:
+                if ev["kind"] == "rebuild":
+                    if not ev["intact"]:
+                        run.violation("build-leaves-input-intact", c,
+                                      "%s: building modifies the caller's dictionary (%s): a second build, or a read-modify-write, "
+                                      "no longer sees the values that were parsed" % (c, ev["diff"]), file, fm.node.lineno, fm.qualname)
+                    elif not same_value(ev["first"], ev["again"]):
+                        run.violation("build-repeatable", c, "%s: building the same dictionary twice gives different bytes" % c,
+                                      file, fm.node.lineno, fm.qualname)
+                    else:
+                        run.ok("build-leaves-input-intact", c, nontrivial=False)
             if not isinstance(d1, dict):
                 run.violation("parse-after-build", c, "parsing the built structure returns %r" % (d1,), file, fu.node.lineno, fu.qualname)
                 continue
